@@ -32,6 +32,7 @@ def observe(spec, inputs):
             C.warm(m1)
         neg = n.pg.Not(m1) if spec["via"] == "Not" else m1.negate()
         if spec.get("chain", 1) == 2:
+            out["midsnap"] = C.snapshot(n, neg)
             neg = n.pg.Not(neg) if spec["via"] == "Not" else neg.negate()
         out["negsnap"] = C.snapshot(n, neg)
         out["negid"] = neg.id
@@ -76,4 +77,6 @@ def judge(spec, inputs, out, ob):
     allbool = all((plspec.P(env, lo), plspec.P(env, hi)) == (0, 1) for lo, hi in leaves.values())
     if allbool and _safe(snap) and not _safe(_tup(out["negsnap"])):
         bad.append("negation of a solver-safe model is not solver-safe")
+    if allbool and out.get("midsnap") is not None and _safe(_tup(out["midsnap"])) and not _safe(_tup(out["negsnap"])):
+        bad.append("the once-negated model is solver-safe but negating it again gives a model that is not")
     return bool(bad), "; ".join(bad) + " | model=%s inputs=%s" % (plspec.show(spec["model"]), inputs)
